@@ -10,7 +10,7 @@ import (
 
 func init() {
 	registerProperty(&Property{
-		ID: "C08",
+		ID:          "C08",
 		Explanation: "Decides structural necessary conditions of graph agreement: (R1) the compile path (compile, pipeline, the namer, partitioner and CompileEnv methods, and the accessor methods of the module's Slice implementations) contains no source of process-local nondeterminism — no goroutine, select, clock, randomness, pid or pointer formatting, and no map iteration feeding an order-sensitive sink; (R2) task names are built only from data that travels with the invocation (invocation index, operator names, the namer's counter, shard index, task count), never from the process-local File/Line/Index of a slice name; (R3) pipeline advances to the dependency only after all four cuts were tested negative (reused Result, more than one dependency, shuffle, Materialize); (R4) wiring rules shared with C05 (consumer p reads partition p; Task literals carry their partitioning); (R5) the invocation stored for transport has its compile environment frozen before it is stored, and cache presence is consulted and recorded only while the environment is writable; (R7) the worker indexes the compiled tasks by their full name over the transitive closure of the roots. Not decided: name uniqueness and acyclicity for all programs, cross-process equality of Func indices (C16).",
 		Rules: []Rule{
 			{ID: "C08-R1", Doc: "compile path is deterministic by construction", Run: c08r1},
